@@ -358,9 +358,17 @@ def gen_step(world, rng, cfg):
                     x, y = rng.sample(others, 2)
                     ops_.append({'op': 'add', 'g': rep_i, 'u': x, 'v': y, 't': t, 'e': None, 'sp': 'pos'})
                     t += 1
-        ok = []
-        for o in ops_:          # keep only the calls the documented rule accepts in this state (model decides)
-            ok.append(o)
+        if rng.random() < 0.6:
+            # tail: an instant at which the walk's last node is idle (only a foreign pair interacts), then a
+            # hop leaving it - the waiting rule says no path may bridge that instant
+            last = walk[-1]
+            others = [n for n in nodes if n != last]
+            if len(others) >= 2:
+                x, y = rng.sample(others, 2)
+                ops_.append({'op': 'add', 'g': rep_i, 'u': x, 'v': y, 't': t, 'e': None, 'sp': 'pos'})
+                t += 1
+                ops_.append({'op': 'add', 'g': rep_i, 'u': last, 'v': rng.choice(others), 't': t, 'e': None, 'sp': 'pos'})
+        ok = list(ops_)
         world.pending = ok[1:]
         world.count('gen.walk-motif')
         return ok[0]
